@@ -164,6 +164,92 @@ func vc10Try(dir string, epoch uint64, f vc10Files) error {
 	return err
 }
 
+var vc10Roles = []string{"c2o", "s2c", "g2c", "sx", "bt"}
+
+func vc10Role(f *vc10Files, r string) *string {
+	switch r {
+	case "c2o":
+		return &f.C2o
+	case "s2c":
+		return &f.S2c
+	case "g2c":
+		return &f.G2c
+	case "sx":
+		return &f.Sx
+	default:
+		return &f.Bt
+	}
+}
+
+// vc10JudgeLoad judges the outcome err of one NewEpochFromConfig call (configured epoch cfgEpoch, files v.f): a CLoad
+// case for the model (identities read from the files themselves) and the property oracle: an accepted configuration has
+// only files of the right kind, of the configured epoch and (where a root is recorded) of one and the same root CID.
+// keyPrefix/sigSuffix/when distinguish the situations the same configuration is tried in (nothing but the files and the
+// configured epoch enters the model's decision: a reject is a reject whatever this process has loaded before).
+func vc10JudgeLoad(rep *vh.Report, cases *vh.CasesFile, keyPrefix string, cfgEpoch uint64, v vc10Variant, err error, sigSuffix, when string) (accepted bool) {
+	roles, get := vc10Roles, vc10Role
+	accepted = err == nil
+	rep.Case(keyPrefix+v.name, true)
+	if accepted {
+		rep.Count("accepted")
+	} else {
+		rep.Count("rejected")
+	}
+	// model input: identities read from the files themselves
+	gs := "None"
+	var man, offs vc10Ident
+	if v.f.Gsfa != "" {
+		man, offs = vc10IdentifyGsfa(v.f.Gsfa)
+		gs = fmt.Sprintf("(Some (%s, %s))", man.coq(), offs.coq())
+	}
+	ids := map[string]vc10Ident{}
+	for _, r := range roles {
+		ids[r] = vc10Identify(*get(&v.f, r))
+	}
+	cases.Add(fmt.Sprintf("CLoad {| c_epoch := %d%%N; c_c2o := %s; c_s2c := %s; c_g2c := %s; c_gsfa := %s; c_sx := %s; c_bt := %s |} %s",
+		cfgEpoch, ids["c2o"].coq(), ids["s2c"].coq(), ids["g2c"].coq(), gs, ids["sx"].coq(), ids["bt"].coq(), vh.CoqBool(accepted)))
+	if !accepted {
+		return false
+	}
+	replay := map[string]interface{}{"variant": v.name, "files": v.f, "config_epoch": cfgEpoch}
+	if when != "" {
+		replay["when"] = when
+		when = " (" + when + ")"
+	}
+	var bad []string
+	root := ids["c2o"].root
+	wantKind := map[string]string{"c2o": "KCidToOffsetAndSize", "s2c": "KSlotToCid", "g2c": "KSigToCid", "sx": "KSigExists", "bt": "KBlocktime"}
+	for _, r := range roles {
+		id := ids[r]
+		if id.kind != wantKind[r] {
+			bad = append(bad, r+": kind "+id.kind)
+		}
+		if id.epoch == nil || *id.epoch != cfgEpoch {
+			bad = append(bad, r+": epoch "+vc10E(id.epoch))
+		}
+		if r != "bt" && id.root != root {
+			bad = append(bad, r+": root CID")
+		}
+	}
+	if v.f.Gsfa != "" {
+		if man.epoch == nil || *man.epoch != cfgEpoch || man.root != root {
+			bad = append(bad, "gsfa manifest: epoch/root")
+		}
+		if offs.kind != "KPubkeyToOffsetAndSize" {
+			bad = append(bad, "gsfa pubkey index: kind "+offs.kind)
+		}
+		if offs.epoch == nil || *offs.epoch != cfgEpoch || offs.root != root {
+			rep.Fail("gsfa-pubkey-index-of-other-epoch-or-car-accepted"+sigSuffix,
+				fmt.Sprintf("variant %s%s: NewEpochFromConfig accepted an address index whose pubkey-to-offset-and-size index records epoch %v root %s (config epoch %d, root %s)", v.name, when, vc10E(offs.epoch), offs.root, cfgEpoch, root),
+				replay)
+		}
+	}
+	if len(bad) > 0 {
+		rep.Fail("foreign-index-accepted"+sigSuffix, fmt.Sprintf("variant %s%s (config epoch %d) accepted although: %s", v.name, when, cfgEpoch, strings.Join(bad, "; ")), replay)
+	}
+	return true
+}
+
 func TestVerif_C10(t *testing.T) {
 	rep := vh.NewReport("C10", "load",
 		"epoch A (config epoch 2) with every index file x {file of another epoch, file of another CAR of the same epoch} singly and in pairs, the address-index directory with only its pubkey index / only its manifest replaced, files offered in the wrong role, the CAR replaced; the epoch's own files with only the recorded root CID replaced by a sibling CID (same multihash; raw / dag-pb / dag-json codec, CIDv0) in each root-recording file singly, in every pair (same sibling, two siblings) and in all files; Filecoin mode with the configured root replaced (other CAR's root, siblings) and with all indexes of another root; a case = one NewEpochFromConfig call, or one GetNodeByCid through indexes of epoch A and a CAR they were not built from (other CAR / two equal-length sections exchanged / equal-length sections rotated; local file, ReaderAt, warm location cache; every CID fetched 6 times); all combinations enumerated (finite space)")
@@ -238,21 +324,7 @@ func TestVerif_C10(t *testing.T) {
 	type variant = vc10Variant
 	var variants []variant
 	variants = append(variants, variant{"baseline", A})
-	roles := []string{"c2o", "s2c", "g2c", "sx", "bt"}
-	get := func(f *vc10Files, r string) *string {
-		switch r {
-		case "c2o":
-			return &f.C2o
-		case "s2c":
-			return &f.S2c
-		case "g2c":
-			return &f.G2c
-		case "sx":
-			return &f.Sx
-		default:
-			return &f.Bt
-		}
-	}
+	roles, get := vc10Roles, vc10Role
 	others := []struct {
 		name string
 		f    vc10Files
@@ -314,60 +386,8 @@ func TestVerif_C10(t *testing.T) {
 
 	for _, v := range variants {
 		err := vc10Try(work, 2, v.f)
-		accepted := err == nil
-		rep.Case("load/"+v.name, true)
+		accepted := vc10JudgeLoad(rep, cases, "load/", 2, v, err, "", "")
 		if accepted {
-			rep.Count("accepted")
-		} else {
-			rep.Count("rejected")
-		}
-		// model input: identities read from the files themselves
-		gs := "None"
-		var man, offs vc10Ident
-		if v.f.Gsfa != "" {
-			man, offs = vc10IdentifyGsfa(v.f.Gsfa)
-			gs = fmt.Sprintf("(Some (%s, %s))", man.coq(), offs.coq())
-		}
-		ids := map[string]vc10Ident{}
-		for _, r := range roles {
-			ids[r] = vc10Identify(*get(&v.f, r))
-		}
-		cases.Add(fmt.Sprintf("CLoad {| c_epoch := 2%%N; c_c2o := %s; c_s2c := %s; c_g2c := %s; c_gsfa := %s; c_sx := %s; c_bt := %s |} %s",
-			ids["c2o"].coq(), ids["s2c"].coq(), ids["g2c"].coq(), gs, ids["sx"].coq(), ids["bt"].coq(), vh.CoqBool(accepted)))
-		// property oracle: an accepted configuration has only files of the right kind, of the config's epoch
-		// and (where a root is recorded) of one and the same root CID
-		if accepted {
-			var bad []string
-			root := ids["c2o"].root
-			wantKind := map[string]string{"c2o": "KCidToOffsetAndSize", "s2c": "KSlotToCid", "g2c": "KSigToCid", "sx": "KSigExists", "bt": "KBlocktime"}
-			for _, r := range roles {
-				id := ids[r]
-				if id.kind != wantKind[r] {
-					bad = append(bad, r+": kind "+id.kind)
-				}
-				if id.epoch == nil || *id.epoch != 2 {
-					bad = append(bad, r+": epoch")
-				}
-				if r != "bt" && id.root != root {
-					bad = append(bad, r+": root CID")
-				}
-			}
-			if v.f.Gsfa != "" {
-				if man.epoch == nil || *man.epoch != 2 || man.root != root {
-					bad = append(bad, "gsfa manifest: epoch/root")
-				}
-				if offs.kind != "KPubkeyToOffsetAndSize" {
-					bad = append(bad, "gsfa pubkey index: kind "+offs.kind)
-				}
-				if offs.epoch == nil || *offs.epoch != 2 || offs.root != root {
-					rep.Fail("gsfa-pubkey-index-of-other-epoch-or-car-accepted",
-						fmt.Sprintf("variant %s: NewEpochFromConfig accepted an address index whose pubkey-to-offset-and-size index records epoch %v root %s (config epoch 2, root %s)", v.name, vc10E(offs.epoch), offs.root, root),
-						map[string]interface{}{"variant": v.name, "files": v.f})
-				}
-			}
-			if len(bad) > 0 {
-				rep.Fail("foreign-index-accepted", fmt.Sprintf("variant %s accepted although: %s", v.name, strings.Join(bad, "; ")), map[string]interface{}{"variant": v.name, "files": v.f})
-			}
 			// the files whose recorded root CID was rewritten are otherwise the epoch's own: they still serve its objects
 			if strings.HasPrefix(v.name, "all:=own-but-root-cid-") {
 				cfgPath := filepath.Join(work, "try.yml") // written by vc10Try just above
@@ -384,6 +404,9 @@ func TestVerif_C10(t *testing.T) {
 			rep.Sample(map[string]interface{}{"variant": v.name, "accepted": accepted, "error": fmt.Sprint(err)})
 		}
 	}
+	// ---- the same decisions whatever was loaded before: every single-file substitution again while the epoch the
+	// foreign file comes from is loaded in this process, and after it has been loaded and closed (c10hist_test.go)
+	vc10HistoryCases(rep, cases, work, truths)
 	// ---- identity written at build time is read back unchanged
 	for _, tr := range truths {
 		if r, err := indexes.Open_CidToOffsetAndSize(tr.Paths.CidToOffsetAndSize); err == nil {
@@ -1044,6 +1067,11 @@ func vc10FilecoinCases(rep *vh.Report, work string, A, C vc10Files, rootA, rootC
 //
 // each served from the local file, through a ReaderAt (HTTP range requests), and from the local file by a process
 // whose location cache was filled while it served the epoch from its own CAR. Every CID is fetched several times.
+type vc10WrongCar struct {
+	name, path string
+	moved      int // sections that are not where the index says (-1: unknown)
+}
+
 func vc10WrongCarCases(rep *vh.Report, work string, A, C vc10Files, trA *vfxTruth) {
 	carA, err := os.ReadFile(A.Car)
 	if err != nil {
@@ -1052,10 +1080,7 @@ func vc10WrongCarCases(rep *vh.Report, work string, A, C vc10Files, trA *vfxTrut
 	}
 	objs := trA.Objects
 	want := func(o vfxObj) []byte { return carA[o.Offset+o.SecLen-vc01DataLenC10(carA, o) : o.Offset+o.SecLen] }
-	type wcar struct {
-		name, path string
-		moved      int // sections that are not where the index says (-1: unknown)
-	}
+	type wcar = vc10WrongCar
 	cars := []wcar{{"other-car", C.Car, -1}}
 	// exchanged: the first two different sections of equal length
 	exchanged := func() {
@@ -1166,5 +1191,11 @@ func vc10WrongCarCases(rep *vh.Report, work string, A, C vc10Files, trA *vfxTrut
 				rep.Note("wrong CAR %s %s: %d fetches failed (expected %d = %d displaced objects x %d fetches)", wc.name, mode, t.Failed, wc.moved*(rounds+3), wc.moved, rounds+3)
 			}
 		}
+	}
+	// ---- the same CARs with requests that overlap in time: a read of a section by offset (as getSignaturesForAddress and
+	// the gRPC transaction stream issue it) held in the CAR reader while the object the index places there is fetched by
+	// CID, and the other way round (c10conc_test.go)
+	for _, wc := range cars {
+		vc10ConcurrentWrongCar(rep, wc, cfgOf("wrongcar-"+wc.name+"-gated", wc.path), objs, want)
 	}
 }
